@@ -901,30 +901,48 @@ def _resolve_action_conflicts(
                 + [1.0] * (max_length - len(head.matching_scores)),
                 reverse=True,
             )
-            # Check if we have heads with the exact same matching scores and pick one at random (or-group)
-            equal_heads_index = next(
-                (
-                    i
-                    for i, h in enumerate(ordered_heads)
-                    if h.matching_scores != ordered_heads[0].matching_scores
-                ),
-                len(ordered_heads),
-            )
-            picked_head = random.choice(ordered_heads[:equal_heads_index])
-            winning_element = get_flow_config_from_head(state, picked_head).elements[
-                picked_head.position
-            ]
-            assert isinstance(winning_element, SpecOp)
-            flow_state = get_flow_state_from_head(state, picked_head)
-            winning_event = get_event_from_element(state, flow_state, winning_element)
-            log.info(
-                "Winning action at head: %s scores=%s",
-                picked_head,
-                picked_head.matching_scores,
-            )
+            # The head with the best matching scores wins. If its event cannot be created,
+            # its flow fails alone and the best of the remaining heads wins.
+            picked_head = None
+            while ordered_heads and picked_head is None:
+                # Check if we have heads with the exact same matching scores and pick one at random (or-group)
+                equal_heads_index = next(
+                    (
+                        i
+                        for i, h in enumerate(ordered_heads)
+                        if h.matching_scores != ordered_heads[0].matching_scores
+                    ),
+                    len(ordered_heads),
+                )
+                candidate_head = random.choice(ordered_heads[:equal_heads_index])
+                winning_element = get_flow_config_from_head(
+                    state, candidate_head
+                ).elements[candidate_head.position]
+                assert isinstance(winning_element, SpecOp)
+                flow_state = get_flow_state_from_head(state, candidate_head)
+                winning_event = get_event_from_element(
+                    state, flow_state, winning_element
+                )
+                log.info(
+                    "Winning action at head: %s scores=%s",
+                    candidate_head,
+                    candidate_head.matching_scores,
+                )
 
-            if _try_generate_action_event(state, picked_head):
-                advancing_heads.append(picked_head)
+                if _try_generate_action_event(state, candidate_head):
+                    picked_head = candidate_head
+                    advancing_heads.append(picked_head)
+                else:
+                    ordered_heads = [
+                        head
+                        for head in ordered_heads
+                        if head != candidate_head
+                        and is_active_flow(get_flow_state_from_head(state, head))
+                        and head.status == FlowHeadStatus.ACTIVE
+                    ]
+            if picked_head is None:
+                continue
+
             for head in ordered_heads:
                 if head == picked_head:
                     continue
@@ -949,6 +967,9 @@ def _resolve_action_conflicts(
                     and isinstance(competing_event, ActionEvent)
                     and competing_event.action_uid
                     and winning_event.action_uid != competing_event.action_uid
+                    # The event of `send Action().Start()` belongs to no registered action
+                    and winning_event.action_uid in state.actions
+                    and competing_event.action_uid in state.actions
                 )
                 if is_same_action and refers_to_other_action:
                     # Events of two different actions (e.g. the Stop events of two running
